@@ -110,12 +110,26 @@ def _has_text_len_mod8(b):
         return False
 
 
+_DEFECT = {}
+
+
+def defect_present(which):
+    """Self-probes for the two TextString defects that were confirmed when this check was built
+    (both repaired in the repository since): while one is present its cases are excluded from
+    the bulk generator and counted; once it is gone nothing is excluded."""
+    if which not in _DEFECT:
+        spec = {"nonascii": {"cls": "TextString", "v": [1, 0], "fields": {"value": "é"}},
+                "textpad": {"cls": "TextString", "v": [1, 0], "fields": {"value": "abcdefgh"},
+                            "reemit": True}}[which]
+        try:
+            _DEFECT[which] = bool(judge_a(spec)[0])
+        except Exception:
+            _DEFECT[which] = False
+    return _DEFECT[which]
+
+
 def _nontrivial_a(spec):
-    from vlib.props import c01
-    try:
-        return c01.nontrivial_key(spec)
-    except Exception:
-        return (spec["cls"], tuple(spec["v"])), False
+    return A.nontrivial_key(spec)
 
 
 def _record_a(col, spec, seen, bulk):
@@ -129,7 +143,7 @@ def _record_a(col, spec, seen, bulk):
         # of decoded text (length 0 mod 8) is excluded here and reached by the sweep
         buckets, notes, b = A.judge(spec)
         if b is not None:
-            if _has_text_len_mod8(b):
+            if defect_present("textpad") and _has_text_len_mod8(b):
                 col.exclude("re-emit of a decoded TextString with length 0 mod 8 (confirmed "
                             "padding defect; reached by the primitive sweep)")
             else:
@@ -161,7 +175,7 @@ def worker_a(shard, seed, units, n):
         core.draw_examples(T.strategy_for(name, v), n,
                            core.derive_seed(seed, "c02a", name, v[0], v[1]), fn)
         if any(isinstance(f.kind, (T.Text, T.AttrName)) for f in row.fields) \
-                and "nonascii" not in row.probes:
+                and "nonascii" not in row.probes and defect_present("nonascii"):
             col.exclude("non-ASCII text outside the TextString row (TextString cannot encode it; "
                         "reached by the TextString probe and the primitive sweep)", n)
     return col
@@ -343,7 +357,7 @@ def _probe_sequences(idx):
     from vlib import fixtures as F
     sk = idx["SymmetricKey/PRE_ACTIVE"]
     seqs = []
-    for nm in ("abcdefgh", "n" * 16, "", "x" * 24):
+    for nm in ("abcdefgh", "n" * 16, "", "x" * 24, "schl\u00fcssel", "\u043a\u043b\u044e\u0447-\u65e5\u672c"):
         for v in ([1, 0], [1, 2], [1, 4], [2, 0]):
             seqs.append([
                 {"v": v, "items": [F.register_item("SymmetricKey", label="p" + nm[:2],
@@ -356,6 +370,10 @@ def _probe_sequences(idx):
                      {"v": v, "items": [{"op": "GetAttributes", "uid": sk, "names": ["Cryptographic Usage Mask", "Application Specific Information"]}]},
                      {"v": v, "items": [{"op": "DeleteAttribute", "uid": sk, "name": "Application Specific Information", "index": 0}]},
                      {"v": v, "items": [{"op": "ModifyAttribute", "uid": sk, "attr": ["Object Group", "sixteen-chars-grp", 0]}]}])
+    # KMIP 2.0 GetAttributes that matches nothing (confirmed: the response cannot be written)
+    seqs.append([{"v": [2, 0], "items": [{"op": "GetAttributes", "uid": sk, "names": ["Usage Limits"]}]},
+                 {"v": [2, 0], "items": [{"op": "GetAttributes", "uid": sk, "names": []}]},
+                 {"v": [1, 4], "items": [{"op": "GetAttributes", "uid": sk, "names": ["Usage Limits"]}]}])
     seqs.append([{"v": [2, 0], "items": [{"op": "SetAttribute", "uid": sk, "new": ["Contact Information", "abcdefgh"]}]},
                  {"v": [2, 0], "items": [{"op": "ModifyAttribute", "uid": sk, "cur": ["Name", "n-SymmetricKey-PRE_ACTIVE"], "new": ["Name", "12345678"]}]},
                  {"v": [2, 0], "items": [{"op": "GetAttributes", "uid": sk}]},
@@ -480,6 +498,9 @@ def gen_history(draw):
             r["max"] = draw(st.sampled_from([1, 8, 100, 160, 168, 176, 200, 256, 400, 1000]))
         elif kind == "version":
             r["v"] = draw(st.sampled_from(_UNSUPPORTED_VERSIONS))
+            # the attribute operations have version-specific request forms
+            r["items"] = [it for it in items if it["op"] not in (
+                "ModifyAttribute", "DeleteAttribute", "SetAttribute")] or [{"op": "Query"}]
         elif kind == "mangle":
             nops = draw(st.sampled_from([1, 1, 1, 2, 3]))
             ops = [[draw(st.sampled_from(["del", "del", "dup", "swap", "retag", "retype", "text",
@@ -540,7 +561,9 @@ def grid_histories():
                 {"async": False}, {"cont": "UNDO"}, {"count": 3}, {"count": 0}, {"max": 0},
                 {"max": 1}, {"max": 160}, {"max": 2 ** 31 - 1}, {"order": True},
                 {"cred": [{"kind": "user", "user": "u", "password": "p"}]}]
-        reqs = [dict({"kind": "batch", "v": list(v), "items": [dict(q)]}, **h) for h in hdrs]
+        reqs = [dict({"kind": "batch", "v": list(v), "items": [dict(q)],
+                      "label": ",".join("%s=%s" % (k, x if not isinstance(x, list) else "user")
+                                        for k, x in sorted(h.items()))}, **h) for h in hdrs]
         reqs.append({"kind": "batch", "v": list(v),
                      "items": [dict(q, bid=None), dict(q, bid=None)], "label": "no-ids"})
         reqs.append({"kind": "batch", "v": list(v),
@@ -549,7 +572,8 @@ def grid_histories():
         chunked(reqs, 9)
         for bad in _BAD_CERTS:
             chunked([{"kind": "batch", "v": list(v), "items": [dict(q)]}], cert=bad)
-    chunked([{"kind": "batch", "v": v, "items": [{"op": "Query"}]} for v in _UNSUPPORTED_VERSIONS])
+    chunked([{"kind": "batch", "v": v, "items": [{"op": "Query"}],
+              "label": "unsupported-version"} for v in _UNSUPPORTED_VERSIONS])
     raws = [{"kind": "raw", "hex": hx, "label": lab} for lab, hx in raw_menu()]
     chunked(raws, 9)
     for bad in _BAD_CERTS:
@@ -630,6 +654,20 @@ def run(ctx):
     args += [("A", i, ctx.seed, shards[i], n_a) for i in range(jobs)]
     dicts = core.run_sharded("vlib.props.c02", "worker", args, jobs=jobs)
     col = core.merged(PID, dicts)
+    # samples: real cases of both parts, one per class
+    picked, seen_cls, seen_spec = [], set(), set()
+    for part, quota in (("B:", 4), ("A:", 4)):
+        k = 0
+        for d in dicts:
+            for c, sp in d["samples"]:
+                h = core.spec_hash(sp)
+                if c.startswith(part) and c not in seen_cls and h not in seen_spec and k < quota:
+                    seen_cls.add(c)
+                    seen_spec.add(h)
+                    picked.append([c, sp])
+                    k += 1
+    if picked:
+        col.samples = picked
     for r in T.ROWS.values():
         if r.abstract:
             col.exclude("class without a wire form of its own (abstract/stub): " + r.name)
